@@ -143,9 +143,10 @@ func (s symbol) op(v *view) (string, bool) {
 // random sequences: mostly protocol-following, with arbitrary requests mixed in
 
 type randGen struct {
-	rng *rand.Rand
-	cfg Cfg
-	max int
+	rng   *rand.Rand
+	cfg   Cfg
+	max   int
+	queue []string // ops already decided (a pipelined batch)
 }
 
 func (g *randGen) pick(xs ...string) string { return xs[g.rng.IntN(len(xs))] }
@@ -209,6 +210,11 @@ func (g *randGen) handler() (int, bool) {
 }
 
 func (g *randGen) next(v *view) (string, bool) {
+	if len(g.queue) > 0 {
+		op := g.queue[0]
+		g.queue = g.queue[1:]
+		return op, true
+	}
 	if v.nSteps >= g.max {
 		return "", false
 	}
@@ -245,6 +251,29 @@ func (g *randGen) next(v *view) (string, bool) {
 			r.Star = true
 		}
 		g.arbitrary(v, &r)
+	}
+	if g.chance(8) {
+		// a pipelined batch: this request and one to three more on the same connection, written at once
+		n := 1 + g.rng.IntN(3)
+		ops := []string{strings.Replace(r.String(), "sess req ", "sess preq ", 1)}
+		for i := 0; i < n; i++ {
+			v.cseq++
+			q := Req{Conn: c, CSeq: strconv.Itoa(v.cseq), Sid: "n", Track: "0", Trs: "-", Ct: 1, SdpOk: true, NAnn: 1, HStatus: 200}
+			if g.chance(70) {
+				g.follow(v, &q)
+			} else {
+				q.HStatus, q.HErr = g.handler()
+				g.arbitrary(v, &q)
+			}
+			// a client cannot name a session that only comes into being inside the batch
+			if k, err := strconv.Atoi(q.Sid); err == nil && k >= v.snap.opened {
+				q.Sid = "w"
+			}
+			ops = append(ops, strings.Replace(q.String(), "sess req ", "sess preq ", 1))
+		}
+		ops = append(ops, "sess sync")
+		g.queue = ops[1:]
+		return ops[0], true
 	}
 	return r.String(), true
 }
